@@ -170,6 +170,7 @@ func init() {
 				calls  []*callSpec
 				before map[int]time.Duration // pause before call k
 				fails  map[int]bool          // calls that cannot succeed (never answered / dead connection)
+				quick  map[int]bool          // calls that are answered at once and have to return at once
 				op     string
 				impl   string
 				prop   string
@@ -256,6 +257,23 @@ func init() {
 				}
 				scs = append(scs, sc)
 			}
+			// (7) the device answers a request with an error value (busy, try again, access denied …): that is the reply — it is
+			// returned at once, the request is not repeated
+			for _, code := range []uint32{4, 2, 1, 8} {
+				sc := &scenario{name: fmt.Sprintf("device-answers-error-%d", code), fails: map[int]bool{}, quick: map[int]bool{1: true}}
+				for k := 0; k < 3; k++ {
+					c := healthy(k)
+					if k == 1 {
+						var rep []rscp.Message
+						for _, r := range c.reqs {
+							rep = append(rep, rscp.Message{Tag: r.Tag | 1<<23, DataType: rscp.Error, Value: rscp.RscpError(code)})
+						}
+						c.user = frameReply(rep)
+					}
+					sc.calls = append(sc.calls, c)
+				}
+				scs = append(scs, sc)
+			}
 			// (5) a reply damaged in transit once (one bit of the frame's time stamp, checksum untouched): the call fails
 			// with a checksum error, its request reached the device once, the next call works on a new connection
 			for j := 0; j < 2; j++ {
@@ -285,9 +303,16 @@ func init() {
 						if d := sc.before[k]; d > 0 {
 							time.Sleep(d)
 						}
+						t0 := time.Now()
 						r := ts.call(c)
+						if sc.quick[k] && time.Since(t0) > 900*time.Millisecond {
+							addVerdict(&prop, fmt.Sprintf("FAIL C10 a call that the device answered at once took %v ;; FAIL C08 the call does not end with the device's reply", time.Since(t0).Round(time.Millisecond)))
+						}
 						ops = append(ops, c.op())
 						res = append(res, r)
+						if strings.Contains(r, "undecodable") {
+							addVerdict(&prop, "FAIL C06 an independent peer cannot decrypt a frame of the client: "+trunc(r, 140))
+						}
 						nonce := "no-nonce"
 						if str, ok := c.reqs[0].Value.(string); ok && len(str) < 100 {
 							nonce = hexOf([]byte(str))
